@@ -14,6 +14,12 @@ def show_msgs(msgs):
     return ",".join("%d/%s/%s" % (r, t if t else "-", "+".join(str(x) for x in rc) if rc else "-") for (r, t, rc) in msgs)
 
 
+def node_stream(sc, node):
+    """the batches node <node> adds, in order: the common stream, or (restore scenarios) what the
+    node rebuilt from a snapshot really holds, as dumped from the real FSM by stage 1"""
+    return sc.get("node_streams", {}).get(str(node), sc["stream"])
+
+
 def case_line(sc):
     """events: ["a",node] node applies its next batch | ["d",node,id] | ["c",node] | ["x"] | ["r",k]"""
     applied = {}
@@ -21,9 +27,9 @@ def case_line(sc):
     for ev in sc["events"]:
         if ev[0] == "a":
             n = applied.get(ev[1], 0)
-            if n >= len(sc["stream"]):
+            if n >= len(node_stream(sc, ev[1])):
                 continue
-            i, msgs = sc["stream"][n]
+            i, msgs = node_stream(sc, ev[1])[n]
             applied[ev[1]] = n + 1
             toks.append("a:%d:%d:%s" % (ev[1], i, show_msgs(msgs)))
         elif ev[0] == "d":
@@ -56,10 +62,11 @@ def reference(sc):
     applied, conn, p = {}, None, 0
     want = []
     last = tuple(sc["ls0"])
+    base = sc.get("node_base", {})
     for ev in sc["events"]:
         if ev[0] == "a":
             n = applied.get(ev[1], 0)
-            if n >= len(sc["stream"]):
+            if n >= len(node_stream(sc, ev[1])):
                 continue
             applied[ev[1]] = n + 1
             want.append(None)
@@ -72,8 +79,10 @@ def reference(sc):
         elif ev[0] == "r":
             got = []
             if conn is not None:
-                n = applied.get(conn, 0)
-                while p < len(exp) and exp[p][0] < n and (ev[1] == 0 or len(got) < ev[1]):
+                # a node rebuilt from a snapshot holds the reference stream from its horizon on
+                b0 = base.get(str(conn), 0)
+                n = b0 + applied.get(conn, 0)
+                while p < len(exp) and b0 <= exp[p][0] < n and (ev[1] == 0 or len(got) < ev[1]):
                     got.append(exp[p]); p += 1
             if got:
                 last = (got[-1][1], got[-1][2])
